@@ -141,3 +141,91 @@ theorem wf_flat_banded (n ml mu : Nat) (g : Nat → Nat → K) :
 
 end
 end Mat
+
+namespace Mat
+noncomputable section
+variable {K : Type} [Field K] [LinearOrder K] [IsStrictOrderedRing K] [SqrtPow K]
+
+theorem getD_flat {rows n : Nat} (g : Nat → Nat → K) {r c : Nat} (hr : r < rows) (hc : c < n) :
+    (flat rows n g).getD (r * n + c) 0 = g r c := by
+  have := flat_get g hr hc
+  simp [Array.getD_eq_getD_getElem?, this]
+
+/-- `to_full` of a well-formed matrix: an n·n buffer holding `entry` -/
+theorem toFull_wf {A : Mat K} (hw : WF A) :
+    ∃ d, toFull A.n A.data A.storage = some d ∧ d.size = A.n * A.n ∧
+      ∀ i j, i < A.n → j < A.n → d.getD (i * A.n + j) 0 = entry A i j := by
+  obtain ⟨hm, hs⟩ := hw
+  cases hst : A.storage with
+  | full =>
+    rw [hst] at hs
+    exact ⟨A.data, rfl, hs, fun i j _ _ => by simp [entry, hst]⟩
+  | identity =>
+    refine ⟨flat A.n A.n (fun r c => (toFullEntry A.n A.data .identity r c).getD 0), ?_, by simp, ?_⟩
+    · simp only [toFull, collect]
+      rw [collectRows_some]
+      intro r c _ _; simp [toFullEntry]
+    · intro i j hi hj
+      rw [getD_flat _ hi hj]
+      simp [toFullEntry, entry, hst]
+  | banded ml mu =>
+    rw [hst] at hs; dsimp only at hs
+    have hsome : ∀ r c, r < A.n → c < A.n → (toFullEntry A.n A.data (.banded ml mu) r c).isSome := by
+      intro r c hr hc
+      simp only [toFullEntry]
+      by_cases hb : inBand ml mu r c
+      · rw [if_pos hb]
+        have : (r + mu - c) * A.n + c < A.data.size := by rw [hs]; exact flat_lt (band_row_lt hb) hc
+        simp [this]
+      · rw [if_neg hb]; simp
+    refine ⟨flat A.n A.n (fun r c => (toFullEntry A.n A.data (.banded ml mu) r c).getD 0), ?_, by simp, ?_⟩
+    · simp only [toFull, collect]
+      rw [collectRows_some _ hsome]
+    · intro i j hi hj
+      rw [getD_flat _ hi hj]
+      simp only [toFullEntry, entry, hst]
+      by_cases hb : inBand ml mu i j
+      · rw [if_pos hb, if_pos hb]
+        have : (i + mu - j) * A.n + j < A.data.size := by rw [hs]; exact flat_lt (band_row_lt hb) hj
+        simp [Array.getD, this]
+      · rw [if_neg hb, if_neg hb]; simp
+
+theorem getD_zipWith {f : K → K → K} {a b : Array K} {k : Nat} (ha : k < a.size) (hb : k < b.size) :
+    (Array.zipWith f a b).getD k 0 = f (a.getD k 0) (b.getD k 0) := by
+  simp [Array.getD, ha, hb]
+
+end
+end Mat
+
+namespace Mat
+noncomputable section
+variable {K : Type} [Field K] [LinearOrder K] [IsStrictOrderedRing K] [SqrtPow K]
+
+/-- value read from a well-sized banded buffer -/
+theorem band_read {n ml mu : Nat} {d : Array K} (hs : d.size = (ml + mu + 1) * n) {i j : Nat} (hj : j < n) :
+    (if inBand ml mu i j then d[(i + mu - j) * n + j]? else some (Num.zero : K))
+      = some (if inBand ml mu i j then d.getD ((i + mu - j) * n + j) 0 else 0) := by
+  by_cases hb : inBand ml mu i j
+  · rw [if_pos hb, if_pos hb]
+    have : (i + mu - j) * n + j < d.size := by rw [hs]; exact flat_lt (band_row_lt hb) hj
+    simp [Array.getD, this]
+  · rw [if_neg hb, if_neg hb]; simp
+
+theorem bandedCell_eq (isAdd : Bool) {a b : Array K} {n ml mu ml2 mu2 : Nat}
+    (hsa : a.size = (ml + mu + 1) * n) (hsb : b.size = (ml2 + mu2 + 1) * n) {ro j : Nat} (hj : j < n) :
+    bandedCell isAdd a b n ml mu ml2 mu2 ro j =
+      some (if max mu mu2 ≤ j + ro ∧ j + ro < n + max mu mu2 then
+              (let i := j + ro - max mu mu2
+               let x := if inBand ml mu i j then a.getD ((i + mu - j) * n + j) 0 else 0
+               let y := if inBand ml2 mu2 i j then b.getD ((i + mu2 - j) * n + j) 0 else 0
+               if isAdd then x + y else x - y)
+            else 0) := by
+  unfold bandedCell
+  dsimp only
+  by_cases hc : max mu mu2 ≤ j + ro ∧ j + ro < n + max mu mu2
+  · rw [if_pos hc, if_pos hc, band_read hsa hj, band_read hsb hj]
+    cases isAdd <;> simp
+  · rw [if_neg hc, if_neg hc]; simp
+
+end
+end Mat
